@@ -22,19 +22,20 @@ def apply_op(op, gr, case):
     from y0.graph import NxMixedGraph, get_nodes_in_directed_paths
     import networkx as nx
     S = [GG.V(i) for i in case.get("S", [])]
+    Sp = lambda: GG.present(S, (op, len(case["g"]["nodes"])))     # noqa: E731  -- the argument as callers hand it over (list, set, view, one-shot iterator, ...)
     if op in ("subgraph", "remove_in_edges", "remove_out_edges", "remove_nodes_from"):
-        return GG.from_y0(getattr(gr, op)(S))
+        return GG.from_y0(getattr(gr, op)(Sp()))
     if op in ("ancestors_inclusive", "descendants_inclusive"):
         try:
-            return sorted(GG.vid(v) for v in getattr(gr, op)(S))
+            return sorted(GG.vid(v) for v in getattr(gr, op)(Sp()))
         except nx.NetworkXError:
             return None
     if op == "districts":
         return sorted(sorted(GG.vid(v) for v in d) for d in gr.districts())
     if op == "get_markov_pillow":
-        return sorted(GG.vid(v) for v in gr.get_markov_pillow(S))
+        return sorted(GG.vid(v) for v in gr.get_markov_pillow(GG.present(S, op, collection=True)))   # typed Collection[Variable]
     if op == "get_markov_blanket":
-        return sorted(GG.vid(v) for v in gr.get_markov_blanket(S))
+        return sorted(GG.vid(v) for v in gr.get_markov_blanket(Sp()))
     if op == "moralize":
         return GG.from_y0(gr.moralize())
     if op == "disorient":
@@ -148,7 +149,7 @@ class C14(PropBase):
         if canon(op, out) != canon(op, out2) and violation is None and order_used is None:   # (pre() under the graph's own order follows that order)
             violation = f"{op} result depends on insertion order: {out} vs {out2}"
         if violation is None and op not in ("topological_sort", "pre"):
-            violation = GG.renamed_differs(case, canon(op, out), lambda: canon(op, apply_op(op, GG.to_y0(g), case)))
+            violation = GG.renamed_differs(case, canon(op, out), lambda: canon(op, apply_op(op, GG.to_y0(g), case)), cf_nodes=op not in ("moralize",))
         nontrivial = bool(g["dir"] or g["bid"]) and out is not None and canon(op, out) != canon(op, g) \
             and out != sorted(case.get("S", []))
         feats = [op, f"n={len(g['nodes'])}", "cyclic" if not GG.is_acyclic(g) else "acyclic"]
